@@ -83,7 +83,7 @@ mut('C04', 'f7_emits_without_sysex', TOK, "            if self._status == SYSEX_
 mut('C05', 'new_tokenizer_per_feed', PAR, "        self._tok.feed(data)\n        self._decode()", "        self._tok = Tokenizer(data)\n        self._decode()")
 mut('C05', 'get_message_pops_twice', PAR, "        for msg in self:\n            return msg\n        else:\n            return None",
     "        for msg in self:\n            if len(self.messages) > 2:\n                self.messages.popleft()\n            return msg\n        else:\n            return None")
-mut('C05', 'pending_reports_tokenizer', PAR, "        return len(self.messages)", "        return len(self.messages) + len(self._tok)")
+mut('C05', 'pending_reports_tokenizer', PAR, "        return len(self.messages)", "        return len(self.messages) + (1 if self._tok._status else 0)")
 mut('C05', 'decode_not_draining', PAR, "        for midi_bytes in self._tok:\n            self.messages.append(Message.from_bytes(midi_bytes))",
     "        for midi_bytes in self._tok:\n            self.messages.append(Message.from_bytes(midi_bytes))\n            break")
 mut('C05', 'feed_byte_no_decode', PAR, "        self._tok.feed_byte(byte)\n        self._decode()", "        self._tok.feed_byte(byte)\n        if byte > 127:\n            self._decode()")
@@ -98,16 +98,14 @@ mut('C06', 'undefined_status_eats_next', TOK, "            # self._status = 0\n 
 mut('C07', 'sysex_len_plus1_dropped', MF, "            data.extend(encode_variable_int(len(msg.data) + 1))", "            data.extend(encode_variable_int(len(msg.data) + (1 if len(msg.data) < 127 else 0)))")
 mut('C07', 'eot_delta_lost', TRK, "                delta = accum + msg.time\n                yield msg.copy(skip_checks=skip_checks, time=delta)\n                accum = 0",
     "                delta = accum + msg.time\n                yield msg.copy(skip_checks=skip_checks, time=delta)")
-mut('C07', 'header_field_order', MF, "            header = struct.pack('>hhh', self.type,\n                                 len(self.tracks),\n                                 self.ticks_per_beat)",
-    "            header = struct.pack('>hhh', self.type,\n                                 self.ticks_per_beat if len(self.tracks) > 20 else len(self.tracks),\n                                 self.ticks_per_beat)")
-mut('C07', 'negative_time_accepted', MF, "        if msg.time < 0:\n            raise ValueError('message time must be non-negative in MIDI file')",
-    "        if msg.time < 0 and msg.is_meta:\n            raise ValueError('message time must be non-negative in MIDI file')")
+mut('C07', 'header_signed_tpb_byte', MF, "            header = struct.pack('>hhh', self.type,\n                                 len(self.tracks),\n                                 self.ticks_per_beat)",
+    "            header = struct.pack('>hhh', self.type,\n                                 len(self.tracks),\n                                 self.ticks_per_beat & 0x7f7f)")
 mut('C07', 'type0_check_dropped', MF, "        if self.type == 0 and len(self.tracks) != 1:", "        if self.type == 0 and len(self.tracks) > 1:")
-mut('C07', 'meta_keeps_running_status_writer_only', MF, "            data.extend(msg.bytes())\n            running_status_byte = None", "            data.extend(msg.bytes())")
+mut('C07', 'sysex_keeps_running_status', MF, "            data.append(0xf7)\n            running_status_byte = None", "            data.append(0xf7)")
 # ---- C08 ----
 mut('C08', 'running_status_across_meta_both', MF, "            data.extend(msg.bytes())\n            running_status_byte = None", "            data.extend(msg.bytes())")
 mut('C08', 'chunk_len_little_endian_both', MF, "    outfile.write(struct.pack('>L', len(data)))", "    outfile.write(struct.pack('<L', len(data)))")
-mut('C08', 'debug_wrapper_reads_differently', MF, "        data = self.file.read(size)\n\n        for byte in data:", "        data = self.file.read(size if size != 3 else 2)\n\n        for byte in data:")
+mut('C08', 'debug_wrapper_reads_differently', MF, "        data = self.file.read(size)\n\n        for byte in data:", "        data = self.file.read(size if size < 8 else 8)\n\n        for byte in data:")
 mut('C08', 'clip_only_first', MF, "        data_bytes = [byte if byte < 127 else 127 for byte in data_bytes]",
     "        data_bytes = [byte if (byte < 127 or i) else 127 for i, byte in enumerate(data_bytes)]")
 mut('C08', 'sysex_clip_missing', MF, "    if clip:\n        data = [byte if byte < 127 else 127 for byte in data]\n\n    return Message('sysex', data=data, time=delta)",
